@@ -1,22 +1,64 @@
 """C12 - Profile string literals encode and decode bytes losslessly and safely (structural core).
 
-The encoder (`value_to_string`) and the decoder (`string_token_to_bytes`) are analysed by a small path-sensitive
-*abstract interpreter* over their (normalised) ASTs instead of by matching statement shapes:
+The encoder (`value_to_string`) and the decoder (`string_token_to_bytes`) are analysed by path-wise value flow over their
+(normalised) ASTs instead of by matching statement shapes.  No input data is ever chosen by the checker: parameters,
+characters and digits are symbolic terms; the only concrete values are constants written in the analysed code (or in the
+reference tables), which are folded.
 
-* encoder: the function is evaluated symbolically once under "the argument is bytes" and once under "the argument is
-  str"; the returned value is a term over the parameter (repr / slice / replace / concatenation ...).  The rules look at
-  that term, so it does not matter which variables carry the intermediate values, whether calls are chained, whether the
-  branches are nested ifs or early returns, or whether a step lives in a (inlined) helper.
-* decoder: ONE iteration of the decoding loop is evaluated for every concrete character the iterator can deliver
-  (the iterator reduces characters to 0x00-0xff): for an ordinary character, and for a backslash followed by every
-  possible escape letter.  The iterator itself is abstract: `has_next(n)` forks the path, `next(..)` yields symbolic hex
-  digits tagged with their position in the literal.  Each path gives a trace of events (availability checks, reads,
-  appended values, raise) - the rules are phrased on these traces, so an elif chain, a lookup table, `match`, a helper
-  returning the byte, `for c in it` or `while it.has_next(): c = next(it)` are all the same thing.
+* encoder: the paths of the function are walked once under the named assumption "the argument is bytes" and once under
+  "the argument is str" (this prunes the isinstance tests; every other branch is followed both ways).  The returned
+  value of a path is a term over the parameter (repr / slice / replace / concatenation ...).  The rules look at that
+  term, so it does not matter which variables carry the intermediate values, whether calls are chained, whether the
+  branches are nested ifs or early returns, or whether a step lives in an (inlined) helper.
+* decoder: the body of the decoding loop is walked ONCE, with the characters the iterator delivers symbolic.  The only
+  thing learnt about a character is the outcome of the comparisons the decoder itself makes with its own literals
+  (`c == "x"`, `c in "nrt"`, `c in TABLE`, `TABLE.get(c)`, `TABLE[c]`, `match c: case "n"`, `ord(c) == 0x6E`): such a
+  comparison forks the path into "is that literal" (constant propagation into the case) and "is not" (exclusion set).
+  So the cases are exactly the decoder's own vocabulary plus one "any other character" case in which the character stays
+  symbolic and its code is the term `ord(c)`.  The iterator is abstract: `has_next(n)` forks the path, `next(..)` advances
+  a constant offset relative to the start of the iteration and yields symbolic hex digits tagged with that offset.  Each
+  path gives a trace of events (availability checks, reads, appended terms, raise) - the rules are phrased on these
+  traces, so an elif chain, a lookup table, `match`, a helper returning the byte, `for c in it` or
+  `while it.has_next(): c = next(it)` are all the same thing.  Nested loops are not unrolled (undecided).
+* STRING terminal: the regular expression is parsed (`re._parser`) and its syntax tree inspected; "the body matches every
+  character" is decided on the tree by an interval cover of the code point range / a complementary category pair, never
+  by matching sample strings.
 
-Nothing of /repo is imported or executed: the interpreter only folds constants with Python builtins (ord, chr, int,
-dict lookups, str methods on literals) and treats everything else as unknown.  A construct it does not model makes the
-rule *undecided*, never violated.
+Nothing of /repo is imported or executed: the walker only folds constants with Python builtins (ord, chr, int, dict
+lookups, str methods on literals of the analysed code) and treats everything else as unknown.  A construct it does not
+model makes the rule *undecided*, never violated.
+
+Technique
+---------
+(numbers = the ALLOWED devices of RULES_GUIDE.md, "What counts as static here")
+
+R1 (encoder)  1 (AST, inlined helpers), 2 (paths pruned by the named assumption isinstance(value, bytes|str); other tests
+              followed both ways), 3 (per-path symbolic term of the returned literal over the parameter, compared
+              structurally: `"` + X + `"`, X = replace layers over slice layers over repr(<const> + value + <const>)),
+              6 (folding of the code's own constants: slice bounds, replace arguments, the escaped length of the pin
+              constant, `re.sub` patterns via their parsed syntax tree).
+              Lemmas: L1 repr(bytes) escapes byte-wise and picks the double-quote delimiter only for a value that
+              contains ' and no " - a concatenated b'"' pins the single-quote style, and the text of the value starts
+              2 + len(escaped prefix constant) characters in and ends 1 + len(escaped suffix constant) before the end;
+              L2 the escaped text is printable ASCII in which a backslash only starts an escape pair, so replace
+              ('"' -> backslash + '"') and (backslash + "'" -> "'") touch disjoint matches and commute, and a replacement
+              whose pattern contains a character outside 0x20..0x7e can never match.
+R2 (decoder)  1, 2 (has_next() / data-dependent tests fork the path; tests on unknown values are followed both ways and
+              mark the path as guessed -> undecided, not violated), 3 (ONE symbolic iteration: event traces with appended
+              terms ord(c), int(<digits at offsets>, base), constants), 4 (cursor offset / availability typestate: a read
+              must be covered by an earlier successful availability check; interval + known-bits facts for masks),
+              5 (case analysis over the decoder's own literals / table keys + "any other character"; reference table
+              tables.ESCAPES), 6 (constant tables of the module folded).
+              Lemmas: L3 ord/chr are inverse bijections (ord(c) == k <=> c == chr(k)); L4 a one-character string is in a
+              str s iff it is one of the characters of s, and equals no string of another length; L5 for 0 <= x <= 255:
+              x & K == x iff the low eight bits of K are set, x % K == x iff K > 255 (the range 0..255 is the iterator's
+              `& 0xFF`, itself an R2 obligation).
+              Quote stripping and the `& 0xFF` mask: 1, 3 (definitions inlined, slice/strip layers compared structurally).
+R3            5 (the escape letters CPython's repr(bytes) and the encoder can emit - a reference vocabulary - looked up
+              in the case split of R2).
+R4 (STRING)   1, 6 (compiled grammar terminals; regex *syntax tree*), 4 (interval cover of 0..0x10FFFF for the body's
+              character class).  Lemma: L6 a category and its negation (\\s|\\S, \\d|\\D, \\w|\\W) partition the characters;
+              `.` is every character except code 10 unless DOTALL.  Unmodelled classes -> undecided.
 """
 
 from __future__ import annotations
@@ -30,7 +72,7 @@ from csverif.grammar import Grammar
 from csverif.q import FuncView, inline, raise_class
 
 
-# ============================================================================================ mini abstract interpreter
+# ============================================================================================ path walker over symbolic terms
 class _Unsupported(Exception):
     """The code uses a construct the interpreter does not model: the rule cannot locate its subject -> undecided."""
 
@@ -97,7 +139,7 @@ _PURE_METHODS = {
     set: {"union", "intersection", "copy"},
     int: {"to_bytes", "bit_length"},
 }
-_NOT_NONE_TAGS = {"digits", "int", "bytesof", "buf", "iter", "repr", "slice", "rep", "condrep", "cat", "fmt"}
+_NOT_NONE_TAGS = {"digits", "int", "bytesof", "buf", "iter", "repr", "slice", "rep", "condrep", "cat", "fmt", "char", "ord", "mask"}
 
 
 def _concrete(v, depth=0) -> bool:
@@ -126,8 +168,10 @@ def _mentions(v, target, depth=0) -> bool:
     return False
 
 
-class _Oracle:
-    """Replays a prefix of branch decisions, then answers True; `taken` records every decision of the run."""
+class _PathChoice:
+    """Selects ONE path of the analysed code: replays a prefix of branch outcomes, then takes the true edge; `taken` records every
+    outcome of the walk.  It only chooses between the two edges of a branch whose test is symbolic (path enumeration, see
+    `_all_paths`) - it never supplies data."""
 
     def __init__(self, pre):
         self.pre = list(pre)
@@ -145,7 +189,7 @@ def _all_paths(run, limit=64):
     out, todo = [], [[]]
     while todo:
         pre = todo.pop()
-        o = _Oracle(pre)
+        o = _PathChoice(pre)
         out.append(run(o))
         if len(out) > limit:
             raise _Unsupported("too many paths")
@@ -184,7 +228,8 @@ def _module_const_stable(mod, name: str) -> bool:
 
 
 class _Interp:
-    """Path-sensitive evaluator of straight-line/branching code over constants and symbolic values."""
+    """Walks ONE path of straight-line/branching code building symbolic terms (`_Sym`) for the values; constants of the analysed
+    code are folded, tests on symbolic terms are resolved by the path selector (both edges are explored by `_all_paths`)."""
 
     def __init__(self, ctx, f, oracle):
         self.ctx = ctx
@@ -235,7 +280,7 @@ class _Interp:
         if name not in cache:
             self._busy.add(name)
             try:
-                sub = _Interp(self.ctx, self.f, _Oracle([]))
+                sub = _Interp(self.ctx, self.f, _PathChoice([]))
                 sub._busy = self._busy
                 try:
                     v = sub.ev(self.mod.consts[name])
@@ -555,8 +600,6 @@ class _Interp:
                     return int(*args)
                 if name == "dict":
                     return dict(*args, **kws)
-                if name == "range" and not kws and all(isinstance(a, int) and abs(a) <= 64 for a in args):
-                    return tuple(range(*args))
             except Exception:
                 return self.unk(e)
         if name == "dict" and not args:
@@ -668,20 +711,8 @@ class _Interp:
         raise _Flow("break")
 
     def st_For(self, st):
-        seq = self.ev(st.iter)
-        if isinstance(seq, _Sym) or not isinstance(seq, (list, tuple, str, bytes)) or len(seq) > 16:
-            raise _Unsupported(f"loop over `{src(st.iter)}`")
-        for x in seq:
-            self.bind(st.target, x)
-            try:
-                self.block(st.body)
-            except _Flow as fl:
-                if fl.kind == "continue":
-                    continue
-                if fl.kind == "break":
-                    return
-                raise
-        self.block(st.orelse)
+        # a nested loop is not unrolled (not even over a constant sequence): the rule is undecided on such code
+        raise _Unsupported(f"loop over `{src(st.iter)}`")
 
     def st_Match(self, st):
         subj = self.ev(st.subject)
@@ -991,7 +1022,7 @@ def r1(ctx):
         ps = _encoder_paths(ctx, f, "str")
     except _Unsupported as e:
         for text in ("bytes escaper", "quote replacement after escaper", "quote replacement for str", "return f'\"{value}\"'"):
-            ctx.undecided("R1", "TAINT", f, text, f"value_to_string is not understood by the symbolic evaluation ({e})")
+            ctx.undecided("R1", "TAINT", f, text, f"value_to_string is not understood by the path-wise value-flow analysis ({e})")
         return
 
     esc_bad, esc_und, esc_seen = [], [], []
@@ -1111,11 +1142,17 @@ def _literal_body(kind, val, guessed, bad, und):
 
 # ============================================================================================ decoder: string_token_to_bytes
 class _Path:
-    def __init__(self, events, end, guess_at, pos):
+    """One path through one iteration of the decoding loop: its event trace plus the case it stands for - `pin[pos]` is the
+    literal the character at offset `pos` of the iteration was found equal to (a comparison of the analysed code that came
+    out true), `excl[pos]` the literals it was found different from (comparisons that came out false)."""
+
+    def __init__(self, events, end, guess_at, pos, pin=None, excl=None):
         self.events = events
         self.end = end
         self.guess_at = guess_at
         self.pos = pos
+        self.pin = dict(pin or {})
+        self.excl = {k: frozenset(v) for k, v in (excl or {}).items()}
 
     @property
     def guessed(self):
@@ -1145,14 +1182,26 @@ class _Path:
         return out
 
 
-class _Dec(_Interp):
-    """One iteration of the decoding loop; the iterator is abstract, the delivered characters are concrete."""
+def _char(pos):
+    """The (symbolic) character at offset `pos` of the iteration: 0 = the current character, 1 = the one after it."""
+    return _Sym("char", (pos,), "str")
 
-    def __init__(self, ctx, f, loop, oracle, cur, esc, it_cls, shared):
+
+class _Dec(_Interp):
+    """One iteration of the decoding loop, analysed ONCE: the iterator is abstract and the characters it delivers are symbolic.
+
+    The only thing ever learnt about a character is the outcome of the comparisons the analysed code itself makes with its
+    own literals (`c == "x"`, `c in "nrt"`, `c in TABLE`, `TABLE.get(c)`, `match c: case "n"`): each such comparison forks
+    the path into "equal to that literal" (the character is pinned, later uses see the literal: constant propagation) and
+    "different from it" (the literal joins the exclusion set).  The path on which every comparison failed is the
+    "any other character" case, with the character still symbolic (`ord(c)` stays the term ord(c))."""
+
+    def __init__(self, ctx, f, loop, oracle, it_cls, shared):
         _Interp.__init__(self, ctx, f, oracle)
         self.loop = loop
-        self.cur = cur
-        self.feed = [esc]
+        self.cur = _char(0)
+        self.pin = {}
+        self.excl = {}
         self.it_cls = it_cls
         self.pos = 0
         self.avail = 0
@@ -1203,15 +1252,98 @@ class _Dec(_Interp):
         if any(_mentions(v, _ITER) for v in values):
             raise _Unsupported("the iterator is handed to / used by code the interpreter does not model")
 
+    # ---------------------------------------------------------------- case analysis over the decoder's own literals
+    def resolve(self, v):
+        """A character pinned to a literal on this path is that literal (constant propagation into the case)."""
+        if isinstance(v, _Sym):
+            if v.tag == "char" and v.args[0] in self.pin:
+                return self.pin[v.args[0]]
+            if v.tag == "ord" and isinstance(v.args[0], _Sym) and v.args[0].tag == "char" and v.args[0].args[0] in self.pin:
+                return ord(self.pin[v.args[0].args[0]])
+        return v
+
+    def lookup(self, name):
+        return self.resolve(_Interp.lookup(self, name))
+
+    def is_literal(self, pos, lit) -> bool:
+        """Outcome of `<character at pos> == lit` on this path; forks when the path has not decided it yet."""
+        if pos in self.pin:
+            return self.pin[pos] == lit
+        if lit in self.excl.get(pos, ()):
+            return False
+        if self.o.decide():
+            self.pin[pos] = lit
+            return True
+        self.excl.setdefault(pos, set()).add(lit)
+        return False
+
+    def pick(self, pos, keys):
+        """Outcome of `<character at pos> in keys`: the member it equals (one fork per member), or None (none of them)."""
+        for k in keys:
+            if self.is_literal(pos, k):
+                return k
+        return None
+
+    @staticmethod
+    def _members(container):
+        """The one-character strings among the members of a constant container (a character can equal nothing else);
+        for a str container: its characters (for a one-character string c, `c in s` holds iff c is a character of s)."""
+        if isinstance(container, str):
+            return list(dict.fromkeys(container))
+        if isinstance(container, dict):
+            items = list(container.keys())
+        elif isinstance(container, (list, tuple)):
+            items = list(container)
+        elif isinstance(container, (set, frozenset)):
+            items = sorted(container, key=repr)
+        else:
+            return None
+        if not _concrete(items):
+            return None
+        return [k for k in dict.fromkeys(items) if isinstance(k, str) and len(k) == 1]
+
+    def _char_test(self, x, y):
+        """`x == y` where x is a symbolic character (or its code) and y a constant: (pos, literal) to test, False when the
+        two can never be equal, None when the comparison is not of that kind."""
+        if not isinstance(x, _Sym) or isinstance(y, _Sym) or not _concrete(y):
+            return None
+        if x.tag == "char":
+            if isinstance(y, str) and len(y) == 1:
+                return x.args[0], y
+            return False  # a one-character string equals neither a longer/empty string nor a non-string
+        if x.tag == "ord" and isinstance(x.args[0], _Sym) and x.args[0].tag == "char":
+            if isinstance(y, int) and not isinstance(y, bool) and 0 <= y <= 0x10FFFF:
+                return x.args[0].args[0], chr(y)  # lemma: ord(c) == k  <=>  c == chr(k)  (ord/chr are inverse bijections)
+            return False
+        return None
+
+    def sym_compare(self, op, a, b):
+        a, b = self.resolve(a), self.resolve(b)
+        if _concrete(a) and _concrete(b):
+            try:
+                return bool(_CMPOPS[type(op)](a, b))
+            except Exception:
+                return _Sym("unk", ("cmp",))
+        if isinstance(op, (ast.Eq, ast.NotEq)):
+            for x, y in ((a, b), (b, a)):
+                t = self._char_test(x, y)
+                if t is None:
+                    continue
+                r = t if t is False else self.is_literal(*t)
+                return r == isinstance(op, ast.Eq)
+        if isinstance(op, (ast.In, ast.NotIn)) and isinstance(a, _Sym) and a.tag == "char" and not isinstance(b, _Sym):
+            keys = self._members(b)
+            if keys is not None:
+                return (self.pick(a.args[0], keys) is not None) == isinstance(op, ast.In)
+        return _Sym("unk", ("cmp",))
+
     # ---------------------------------------------------------------- iterator protocol
     def read(self, n, single):
         p = self.pos
         self.events.append(("read", p, n))
         self.pos += n
         if single and p <= 1:
-            if p == 0:
-                return self.cur
-            return self.feed.pop(0)
+            return _char(p)
         return _Sym("digits", (tuple(range(p, p + n)),), "str" if single else "list")
 
     def check(self, n):
@@ -1330,12 +1462,18 @@ class _Dec(_Interp):
                     pass
         raise _Unsupported(f"assignment to `{src(target)}`")
 
-    # ---------------------------------------------------------------- symbolic hex digits
+    # ---------------------------------------------------------------- symbolic characters and hex digits
     def sym_truth(self, v):
         if v.tag == "int":
             # the decoded number can be zero or not: both outcomes are feasible (a data fork, not a guess)
             return self.o.decide()
+        if v.tag == "char":
+            return True  # a one-character string is not empty
         return None
+
+    def _char_pos(self, v):
+        v = self.resolve(v)
+        return v.args[0] if isinstance(v, _Sym) and v.tag == "char" else None
 
     def sym_method(self, e, recv, attr, args, kws):
         if isinstance(recv, str) and attr == "join" and len(args) == 1 and not kws:
@@ -1344,6 +1482,11 @@ class _Dec(_Interp):
                 return _Sym("digits", a.args, "str")
             if isinstance(a, (list, tuple)) and a and all(isinstance(x, _Sym) and x.tag == "digits" for x in a) and recv == "":
                 return _Sym("digits", (tuple(p for x in a for p in x.args[0]),), "str")
+        if isinstance(recv, dict) and attr == "get" and 1 <= len(args) <= 2 and not kws and self._char_pos(args[0]) is not None:
+            keys = self._members(recv)
+            if keys is not None:
+                k = self.pick(self._char_pos(args[0]), keys)
+                return recv[k] if k is not None else (args[1] if len(args) == 2 else None)
         return _NOHOOK
 
     def sym_function(self, e, name, args, kws):
@@ -1355,11 +1498,35 @@ class _Dec(_Interp):
             return _Sym("bytesof", (tuple(args[0]),))
         if name in ("str", "list", "tuple") and len(args) == 1 and isinstance(args[0], _Sym) and args[0].tag == "digits" and not kws:
             return _Sym("digits", args[0].args, "str" if name == "str" and args[0].typ == "str" else "list") if not (name == "str" and args[0].typ != "str") else _NOHOOK
+        if len(args) == 1 and not kws:
+            a = self.resolve(args[0])
+            if name == "ord" and isinstance(a, str) and len(a) == 1:
+                return ord(a)
+            if name == "ord" and isinstance(a, _Sym) and a.tag == "char":
+                return _Sym("ord", (a,))  # the code of the symbolic character, kept as a term
+            if name == "chr" and isinstance(a, _Sym) and a.tag == "ord":
+                return a.args[0]  # lemma: chr(ord(c)) == c
+            if name == "str" and isinstance(a, _Sym) and a.tag == "char":
+                return a
         return _NOHOOK
 
     def sym_binop(self, e, a, b):
         if isinstance(e.op, ast.Add) and all(isinstance(x, _Sym) and x.tag == "digits" for x in (a, b)) and a.typ == b.typ:
             return _Sym("digits", (a.args[0] + b.args[0],), a.typ)
+        a, b = self.resolve(a), self.resolve(b)
+        if _concrete(a) and _concrete(b) and type(e.op) in _BINOPS:
+            try:
+                return _BINOPS[type(e.op)](a, b)
+            except Exception:
+                return _NOHOOK
+        # a constant mask / modulus applied to the code of a symbolic character: kept as a term, judged by a known-bits /
+        # interval lemma in the rule (never by trying values)
+        if isinstance(e.op, ast.BitAnd):
+            for x, y in ((a, b), (b, a)):
+                if isinstance(x, _Sym) and x.tag in ("ord", "mask") and isinstance(y, int) and not isinstance(y, bool):
+                    return _Sym("mask", (x, "&", y))
+        if isinstance(e.op, ast.Mod) and isinstance(a, _Sym) and a.tag in ("ord", "mask") and isinstance(b, int) and not isinstance(b, bool):
+            return _Sym("mask", (a, "%", b))
         return _NOHOOK
 
     def sym_subscript(self, e, base, idx, is_slice):
@@ -1370,6 +1537,13 @@ class _Dec(_Interp):
                 return _Sym("digits", ((base.args[0][idx],),), "str")
             except Exception:
                 return _NOHOOK
+        if isinstance(base, dict) and not is_slice and self._char_pos(idx) is not None:
+            keys = self._members(base)
+            if keys is not None:
+                k = self.pick(self._char_pos(idx), keys)
+                if k is None:
+                    raise _Flow("raise", "KeyError")
+                return base[k]
         return _NOHOOK
 
     # ---------------------------------------------------------------- one iteration
@@ -1384,14 +1558,17 @@ class _Dec(_Interp):
                 self.bind(loop.target, self.cur)
             else:
                 if not self.truth(self.ev(loop.test)):
-                    return _Path(self.events, "exit", self.guess_at, self.pos)
+                    return self.path("exit")
             self.block(loop.body)
             end = "end"
         except _Flow as fl:
             end = fl.kind
             if fl.kind == "raise":
                 self.events.append(("raise", fl.value))
-        return _Path(self.events, end, self.guess_at, self.pos)
+        return self.path(end)
+
+    def path(self, end) -> _Path:
+        return _Path(self.events, end, self.guess_at, self.pos, self.pin, self.excl)
 
 
 def _loop_assigned(loop):
@@ -1431,15 +1608,16 @@ _IT_CLS = "c2profile.StringIterator"
 
 
 class _Decoder:
-    """Traces of the decoding loop for every character / escape letter (computed once per run)."""
+    """Traces of ONE symbolic iteration of the decoding loop, split into the cases the decoder itself distinguishes."""
 
     def __init__(self, ctx):
         self.ctx = ctx
         self.f = ctx.repo.func("c2profile.string_token_to_bytes")
         self.error = None
         self.loop = None
-        self.escape = {}  # letter -> [paths on which the letter was read]
-        self.plain = {}  # ordinary character -> [paths]
+        self.paths = []  # paths on which the current character is consumed
+        self.esc_paths = []  # ... the current character is a backslash and the character after it is read
+        self.plain_paths = []  # ... the current character is anything else (a literal the decoder singles out, or "any other")
         self._shared = {}
         try:
             self._build()
@@ -1451,20 +1629,20 @@ class _Decoder:
         loops = [st for st in statements(self.f.node) if isinstance(st, (ast.For, ast.While))]
         return [st for st in loops if fv.enclosing(st, (ast.For, ast.While)) is None]
 
-    def _run(self, loop, cur, esc):
+    def _run(self, loop):
         shared = self._shared.setdefault(id(loop), {})
 
         def run(o):
-            return _Dec(self.ctx, self.f, loop, o, cur, esc, _IT_CLS, shared).iteration()
+            return _Dec(self.ctx, self.f, loop, o, _IT_CLS, shared).iteration()
 
-        return _all_paths(run)
+        return _all_paths(run, limit=256)
 
     def _build(self):
         chosen = None
         last = None
         for loop in self._candidate_loops():
             try:
-                ps = self._run(loop, "\\", "n")
+                ps = self._run(loop)
             except _Unsupported as e:
                 last = e
                 continue
@@ -1474,19 +1652,32 @@ class _Decoder:
         if chosen is None:
             raise _Unsupported(str(last) if last else "no loop over a StringIterator found in string_token_to_bytes")
         self.loop = chosen
-        for code in range(256):
-            ch = chr(code)
-            ps = [p for p in self._run(chosen, "\\", ch) if p.end != "exit" and p.read_at(0)]
-            self.escape[ch] = [p for p in ps if p.read_at(1)]
-            if ch != "\\":
-                self.plain[ch] = [p for p in self._run(chosen, ch, "n") if p.end != "exit" and p.read_at(0)]
+        self.paths = [p for p in ps if p.end != "exit" and p.read_at(0)]
+        self.esc_paths = [p for p in self.paths if p.pin.get(0) == "\\" and p.read_at(1)]
+        self.plain_paths = [p for p in self.paths if p.pin.get(0) != "\\"]
+
+    def letters(self):
+        """The escape letters the decoder singles out: the literals (table keys) it compares the character after a backslash with."""
+        return sorted({p.pin[1] for p in self.esc_paths if 1 in p.pin})
+
+    def other_paths(self):
+        """The "any other character" case of the escape letter."""
+        return [p for p in self.esc_paths if 1 not in p.pin]
+
+    def letter_paths(self, letter):
+        """The paths that apply to backslash + letter: the ones where the letter was singled out, and the "other" ones that never excluded it."""
+        return [p for p in self.esc_paths if p.pin.get(1) == letter or (1 not in p.pin and letter not in p.excl.get(1, ()))]
+
+    @staticmethod
+    def _acts(p) -> bool:
+        return bool(p.appends() or p.end == "raise" or any(pos >= 2 for _, pos, _ in p.reads()) or any(pos + n > 2 for _, pos, n, _ in p.checks()))
 
     def handled(self, letter) -> bool:
         """The decoder does something for backslash + letter (anything but silently dropping the two characters)."""
-        for p in self.escape.get(letter, []):
-            if p.appends() or p.end == "raise" or any(pos >= 2 for _, pos, _ in p.reads()) or any(pos + n > 2 for _, pos, n, _ in p.checks()):
-                return True
-        return False
+        return any(self._acts(p) for p in self.letter_paths(letter))
+
+    def other_handled(self) -> bool:
+        return any(self._acts(p) for p in self.other_paths())
 
 
 def _decoder(ctx) -> _Decoder:
@@ -1505,29 +1696,59 @@ def _is_unknown(v):
     return isinstance(v, _Sym) and v.tag in ("unk", "buf")
 
 
+def _is_code_of(v, pos):
+    """Is `v` provably the code of the (symbolic) character at offset `pos`?  True / False / None (not understood).
+
+    The iterator delivers characters with 0 <= ord(c) <= 255 (established separately: the `& 0xFF` obligation), so
+      lemma 1: x & K == x for all 0 <= x <= 255  iff  the low eight bits of K are all set (known-bits: a cleared bit of K
+               clears that bit of x, and every bit 0..7 is set in some x of the range);
+      lemma 2: x % K == x for all 0 <= x <= 255  iff  K > 255 (x % K == x exactly when 0 <= x < K)."""
+    if isinstance(v, _Sym) and v.tag == "ord":
+        return True if v.args[0] == _char(pos) else None
+    if isinstance(v, _Sym) and v.tag == "mask":
+        inner, op, k = v.args
+        r = _is_code_of(inner, pos)
+        if r is not True:
+            return r
+        return (k & 0xFF) == 0xFF if op == "&" else k > 255
+    if isinstance(v, _Sym):
+        return None
+    return False
+
+
+def _case_value(v, pos, literal):
+    """The appended value in the case "character at `pos` == literal": the term ord(c) is the constant ord(literal) there."""
+    return ord(literal) if _is_code_of(v, pos) is True else v
+
+
 def r2(ctx):
     d = _decoder(ctx)
     f = d.f
     if d.error is not None:
-        ctx.undecided("R2", "TABLE", f, "escape letters", f"the decoding loop of string_token_to_bytes is not understood by the symbolic evaluation: {d.error}")
+        ctx.undecided("R2", "TABLE", f, "escape letters", f"the decoding loop of string_token_to_bytes is not understood by the path analysis: {d.error}")
     else:
-        table = sorted(ch for ch in d.escape if d.handled(ch))
-        ctx.ob("R2", "TABLE", f, "escape letters", set(table) == set(tables.ESCAPES), f"decoder handles {table}; documented set {sorted(tables.ESCAPES)}", d.loop)
+        vocabulary = sorted(set(d.letters()) | set(tables.ESCAPES))
+        table = [ch for ch in vocabulary if d.handled(ch)]
+        shown = table + (["<any other character>"] if d.other_handled() else [])
+        ctx.ob("R2", "TABLE", f, "escape letters", set(table) == set(tables.ESCAPES) and not d.other_handled(),
+               f"decoder handles {shown}; documented set {sorted(tables.ESCAPES)}", d.loop)
         # the escape letter itself is only read when a character is left
         bad, und = [], []
-        for p in d.escape.get("n", []):
+        for p in d.esc_paths:
             for i, pos, n in p.uncovered_reads(1 if isinstance(d.loop, ast.For) else 0):
                 if pos <= 1 < pos + n:
                     (und if p.guessed and p.guess_at <= i else bad).append("the character after a backslash is read without an availability check (a literal ending in a lone backslash fails)")
+        if not d.esc_paths:
+            und.append("no path on which a backslash is followed by a read of the next character")
         _verdict(ctx, "R2", "DOM", f, "escape letter read after has_next()", bad, und, "the character after the backslash is only read when has_next() holds", d.loop)
         for letter, byte in tables.ESCAPES.items():
             if letter not in table:
                 continue
-            paths = d.escape[letter]
+            paths = d.letter_paths(letter)
             if byte is not None:
                 bad, und = [], []
                 for p in paths:
-                    apps = p.appends()
+                    apps = [_case_value(a, 1, letter) for a in p.appends()]
                     extra = [1 for _, pos, _ in p.reads() if pos >= 2] + [1 for _, pos, n, _ in p.checks() if pos + n > 2]
                     if p.end in ("end", "continue") and not extra and len(apps) == 1 and not isinstance(apps[0], (_Sym, bool)) and apps[0] == byte:
                         continue
@@ -1589,22 +1810,29 @@ def r2(ctx):
                 und.append(f"no path that decodes a complete \\{letter} escape was found")
             _verdict(ctx, "R2", "TABLE", f, f"escape \\{letter}", bad, und,
                      f"\\{letter}: availability of {need} characters is checked, {need} are consumed, int(<last 2 digits>, 16) is appended, short input raises ValueError", d.loop)
-        # an ordinary character is appended as its code
+        # an ordinary character is appended as its code: one case per literal the decoder singles out + "any other character"
         bad, und = [], []
-        for ch, paths in d.plain.items():
-            for p in paths:
-                apps = p.appends()
-                extra = [1 for _, pos, _ in p.reads() if pos >= 1]
-                if p.end in ("end", "continue") and not extra and len(apps) == 1 and not isinstance(apps[0], (_Sym, bool)) and apps[0] == ord(ch):
-                    continue
-                if p.guessed or any(_is_unknown(a) for a in apps):
-                    und.append(f"character {ch!r}: path not understood")
-                else:
-                    bad.append(f"character {ch!r} outside an escape gives {apps}{' and consumes more characters' if extra else ''}{'' if p.end in ('end', 'continue') else ' then ' + p.end} (required: its code {ord(ch)})")
-            if not paths:
-                und.append(f"character {ch!r}: no path")
+        for p in d.plain_paths:
+            lit = p.pin.get(0)
+            who = f"character {lit!r}" if lit is not None else "a character the decoder does not single out"
+            apps = p.appends()
+            extra = [1 for _, pos, _ in p.reads() if pos >= 1]
+            good = None
+            if len(apps) == 1:
+                good = _is_code_of(apps[0], 0)
+                if lit is not None and not isinstance(apps[0], (_Sym, bool)):
+                    good = apps[0] == ord(lit)
+            if p.end in ("end", "continue") and not extra and good is True:
+                continue
+            if p.guessed or any(_is_unknown(a) for a in apps) or (len(apps) == 1 and good is None):
+                und.append(f"{who}: path not understood (appends {apps})")
+            else:
+                bad.append(f"{who} outside an escape gives {apps}{' and consumes more characters' if extra else ''}{'' if p.end in ('end', 'continue') else ' then ' + p.end} (required: its code ord(c), once)")
+        if not d.plain_paths:
+            und.append("no path for a character other than a backslash")
+        bad = list(dict.fromkeys(bad))
         bad = bad[:3] + ([f"... {len(bad) - 3} more"] if len(bad) > 3 else [])
-        und = und[:3]
+        und = list(dict.fromkeys(und))[:3]
         _verdict(ctx, "R2", "AGREE", f, "ordinary characters", bad, und, "every character other than a backslash is appended as ord(c) and nothing else is consumed", d.loop)
     _r2_mask(ctx)
     _r2_strip(ctx, f)
@@ -1715,50 +1943,95 @@ def r3(ctx):
 
 
 # ============================================================================================ the STRING terminal
-def _single_chars(items, sc, universe):
-    """Set of characters (within `universe`) matched by a regex fragment that consumes exactly one character, else None."""
-    import re
+_MAXCP = 0x10FFFF
 
+
+def _merge(ivs):
+    out = []
+    for lo, hi in sorted(ivs):
+        if out and lo <= out[-1][1] + 1:
+            out[-1] = (out[-1][0], max(out[-1][1], hi))
+        else:
+            out.append((lo, hi))
+    return out
+
+
+def _complement(ivs):
+    out, nxt = [], 0
+    for lo, hi in _merge(ivs):
+        if lo > nxt:
+            out.append((nxt, lo - 1))
+        nxt = hi + 1
+    if nxt <= _MAXCP:
+        out.append((nxt, _MAXCP))
+    return out
+
+
+def _char_class(items, sc, dotall=False):
+    """Abstract value of a regex fragment (parsed syntax tree) that consumes exactly one character: (intervals, categories) -
+    a union of code point intervals and of named character categories, the latter kept symbolic.  None when the fragment
+    is not of that kind or uses something that is not modelled (inline flags, a negated class containing a category)."""
     items = list(items)
     if len(items) != 1:
         return None
     op, av = items[0]
     if op is sc.SUBPATTERN:
-        return _single_chars(av[3], sc, universe)
+        if (av[1] | av[2]) & ~sc.SRE_FLAG_DOTALL:
+            return None  # scoped flags other than (?s: ) / (?-s: ) are not modelled
+        if av[1] & sc.SRE_FLAG_DOTALL:
+            dotall = True
+        if av[2] & sc.SRE_FLAG_DOTALL:
+            dotall = False
+        return _char_class(av[3], sc, dotall)
     if op is sc.BRANCH:
-        out = set()
+        ivs, cats = [], set()
         for alt in av[1]:
-            s = _single_chars(alt, sc, universe)
-            if s is None:
+            r = _char_class(alt, sc, dotall)
+            if r is None:
                 return None
-            out |= s
-        return out
+            ivs += r[0]
+            cats |= r[1]
+        return _merge(ivs), cats
     if op is sc.ANY:
-        return {c for c in universe if c != "\n"}
+        return ([(0, _MAXCP)] if dotall else [(0, 9), (11, _MAXCP)]), set()  # `.` is every character but the newline (code 10) unless DOTALL
     if op is sc.LITERAL:
-        return {chr(av)} & universe
+        return [(av, av)], set()
     if op is sc.NOT_LITERAL:
-        return {c for c in universe if c != chr(av)}
+        return _complement([(av, av)]), set()
     if op is sc.IN:
-        neg = False
-        out = set()
+        neg, ivs, cats = False, [], set()
         for iop, iav in av:
             if iop is sc.NEGATE:
                 neg = True
             elif iop is sc.LITERAL:
-                out.add(chr(iav))
+                ivs.append((iav, iav))
             elif iop is sc.RANGE:
-                out |= {c for c in universe if iav[0] <= ord(c) <= iav[1]}
+                ivs.append((iav[0], iav[1]))
             elif iop is sc.CATEGORY:
-                cls = {sc.CATEGORY_DIGIT: r"\d", sc.CATEGORY_NOT_DIGIT: r"\D", sc.CATEGORY_SPACE: r"\s", sc.CATEGORY_NOT_SPACE: r"\S", sc.CATEGORY_WORD: r"\w", sc.CATEGORY_NOT_WORD: r"\W"}.get(iav)
-                if cls is None:
-                    return None
-                rx = re.compile(cls)
-                out |= {c for c in universe if rx.fullmatch(c)}
+                cats.add(iav)
             else:
                 return None
-        return (universe - out) if neg else (out & universe)
+        if neg:
+            if cats:
+                return None
+            return _complement(ivs), set()
+        return _merge(ivs), cats
     return None
+
+
+def _matches_every_char(cls, sc):
+    """True / False / None: does the class (value of _char_class) contain every character?
+    Intervals: they cover 0..0x10FFFF.  Categories: lemma - a category and its negation (\\s|\\S, \\d|\\D, \\w|\\W) partition
+    the characters, so their union is everything; a single category's members are not modelled (None)."""
+    if cls is None:
+        return None
+    ivs, cats = cls
+    if _merge(ivs) == [(0, _MAXCP)]:
+        return True
+    for a, b in ((sc.CATEGORY_DIGIT, sc.CATEGORY_NOT_DIGIT), (sc.CATEGORY_SPACE, sc.CATEGORY_NOT_SPACE), (sc.CATEGORY_WORD, sc.CATEGORY_NOT_WORD)):
+        if a in cats and b in cats:
+            return True
+    return None if cats else False
 
 
 def r4(ctx):
@@ -1774,22 +2047,25 @@ def r4(ctx):
     import re._constants as sc
 
     try:
-        parsed = list(sp.parse(val))
+        parsed_obj = sp.parse(val)
+        parsed = list(parsed_obj)
     except Exception as e:  # pragma: no cover
         ctx.ob("R4", "GRAM", "c2profile.lark::STRING", "regex parses", False, f"regex does not parse: {e}")
         return
-    universe = {chr(i) for i in range(0x180)} | {" ", "€", "￿", "\U0001f600"}
+    dotall = bool(getattr(getattr(parsed_obj, "state", None), "flags", 0) & sc.SRE_FLAG_DOTALL)
     ok_open = bool(parsed) and parsed[0] == (sc.LITERAL, 34)
     ok_close = bool(parsed) and parsed[-1] == (sc.LITERAL, 34)
-    lazy_body = False
+    lazy_body = False  # True / False / None (the body's character class is not understood)
+    body_seen = False
     lookbehind = False
     even_run = False
     order = []
     for i, (op, av) in enumerate(parsed[1:-1], 1):
-        if op is sc.MIN_REPEAT and not lazy_body and not lookbehind:
+        if op is sc.MIN_REPEAT and not body_seen and not lookbehind:
             lo, hi, sub = av
-            chars = _single_chars(sub, sc, universe)
-            lazy_body = lo == 0 and hi == sc.MAXREPEAT and chars is not None and chars == universe
+            body_seen = True
+            every = _matches_every_char(_char_class(sub, sc, dotall), sc)
+            lazy_body = every if (lo == 0 and hi == sc.MAXREPEAT) else False
             order.append("body")
         elif op is sc.ASSERT_NOT:
             direction, sub = av
@@ -1804,26 +2080,51 @@ def r4(ctx):
             order.append("pairs")
         else:
             order.append(str(op).lower())
-    ok = ok_open and ok_close and lazy_body and lookbehind and even_run and order == ["body", "lookbehind", "pairs"]
-    ctx.ob("R4", "GRAM", "c2profile.lark::STRING", "regex structure", ok,
-           f"STRING = {val!r}: opening quote={ok_open}, lazy any-char body={lazy_body}, negative look-behind on a backslash={lookbehind}, followed by a run of backslash PAIRS={even_run}, closing quote={ok_close}, order={order}")
+    rest = ok_open and ok_close and lookbehind and even_run and order == ["body", "lookbehind", "pairs"]
+    detail = (f"STRING = {val!r}: opening quote={ok_open}, lazy any-char body={lazy_body if lazy_body is not None else 'not understood'}, negative look-behind on a backslash={lookbehind}, "
+              f"followed by a run of backslash PAIRS={even_run}, closing quote={ok_close}, order={order}")
+    if rest and lazy_body is None:
+        ctx.undecided("R4", "GRAM", "c2profile.lark::STRING", "regex structure", detail + " - the character class of the body is not one the syntax-tree inspection understands")
+    else:
+        ctx.ob("R4", "GRAM", "c2profile.lark::STRING", "regex structure", bool(rest and lazy_body), detail)
 
 
 def run(ctx):
     rep = ctx.rep
     rep.explanation = (
-        "Static analysis of value_to_string / string_token_to_bytes in c2profile.py and of the STRING terminal. The encoder is "
-        "evaluated symbolically for a bytes and for a str argument: on every path the returned literal is the value between two "
-        "double quotes, a bytes value passes the repr-based escaper (quote style pinned by a concatenated double quote, slice "
-        "constants consistent with that pin) and then the double-quote replacement. One iteration of the decoder's loop is "
-        "evaluated for every ordinary character and for a backslash followed by each of the 256 possible escape letters over an "
-        "abstract iterator: the set of handled letters and their byte values are compared with the documented table, hex escapes "
-        "check availability before consuming, consume exactly their digits and append the low byte pair; everything the encoder "
-        "can emit is in the decoder's table; the STRING regex is inspected on its parsed AST (opening quote, lazy any-character "
-        "body, closing quote preceded by an even run of backslashes)."
+        "Static analysis of value_to_string / string_token_to_bytes in c2profile.py and of the STRING terminal; no code is run and no "
+        "input is chosen by the checker. Encoder: path-wise value flow under the named assumptions 'the argument is bytes' / 'is str' - "
+        "on every path the returned literal is a term `\"` + X + `\"` over the parameter, a bytes value passes the repr-based escaper "
+        "(quote style pinned by a concatenated double quote, slice constants consistent with that pin) and then the double-quote "
+        "replacement. Decoder: the body of the decoding loop is walked once over an abstract iterator with symbolic characters; the "
+        "cases are the literals / table keys the decoder itself compares a character with, plus one 'any other character' case in which "
+        "the character stays symbolic (its code is the term ord(c)). On the resulting event traces: the set of escape letters the "
+        "decoder acts on and their byte values are compared with the documented table (the 'other' case must drop the pair silently), "
+        "hex escapes check availability before consuming (cursor-offset typestate), consume exactly their digits and append "
+        "int(<low digit pair>, 16), an ordinary character is appended as ord(c) exactly once (a constant mask is judged by a known-bits "
+        "lemma over 0..255); every escape letter the encoder can emit is one the decoder handles. The STRING regex is inspected on its "
+        "parsed syntax tree (opening quote, lazy body whose character class covers every code point - interval cover or complementary "
+        "categories -, closing quote preceded by an even run of backslashes)."
     )
-    rep.not_decided = ["the round trip for all byte strings (depends on CPython's repr)", "the 'exactly one token' claim over all inputs (regex matching semantics)"]
-    rep.trusted_base = ["CPython ast and repr(bytes) escaping rules", "re._parser", "lark grammar loader"]
+    rep.not_decided = [
+        "the round trip for all byte strings (composition of the lemmas about CPython's repr with the decoder cases is not mechanised)",
+        "the 'exactly one token' claim over all inputs (regex matching semantics; only the structure of the pattern is checked)",
+        "decoders that carry state between characters, unroll nested loops, or hand the iterator to unmodelled code (reported as undecided)",
+        "STRING bodies whose character class uses a single category or scoped flags other than DOTALL (reported as undecided)",
+    ]
+    rep.trusted_base = [
+        "CPython ast",
+        "re._parser (syntax tree of regular expressions)",
+        "lark grammar loader",
+        "lemma L1: repr(bytes) escapes byte-wise; it uses the double-quote delimiter only for a value containing ' and no \", so a concatenated b'\"' pins "
+        "the single-quote style; the value's text lies between offset 2 + len(escaped prefix constant) and 1 + len(escaped suffix constant) from the end",
+        "lemma L2: repr(bytes) output is printable ASCII with backslashes only as the first character of an escape pair, hence the replacements "
+        "'\"' -> '\\\"' and \"\\'\" -> \"'\" commute and a pattern with a non-printable character never matches",
+        "lemma L3: ord and chr are inverse bijections (ord(c) == k <=> c == chr(k))",
+        "lemma L4: a one-character string c is `in` a str s iff c is one of the characters of s; it equals no string of another length and no non-string",
+        "lemma L5: for 0 <= x <= 255, x & K == x iff the low eight bits of K are all set, and x % K == x iff K > 255",
+        "lemma L6: a regex category and its negation partition the characters; `.` matches every character except code 10 unless DOTALL",
+    ]
     r1(ctx)
     r2(ctx)
     r3(ctx)
